@@ -43,6 +43,10 @@ const (
 	apiRel    = "internal/zzverif"
 )
 
+// reachedInEarlierPart: reach labels satisfied by an earlier part of the same check (parts may
+// share harness files; a witness belongs to the part whose entry reaches it).
+var reachedInEarlierPart = map[string]int{}
+
 type CheckSpec struct {
 	Pkg         string            `json:"pkg"`   // repo-relative package dir, e.g. "linker"
 	Files       []string          `json:"files"` // harness files under /verif/harness/<pkg>/
@@ -706,6 +710,7 @@ func (r *runner) runAll(entries []string) int {
 		}
 		for l, n := range ex.Reached {
 			r.reachLabels[l] += n
+			reachedInEarlierPart[l] += n
 		}
 		for _, s := range ex.Samples {
 			if len(r.samples) < 8 {
@@ -750,7 +755,7 @@ func (r *runner) runAll(entries []string) int {
 	}
 	// vacuity: every Reach label in the harness sources must have been reached
 	for _, l := range r.harnessReachLabels(entries) {
-		if r.reachLabels[l] == 0 {
+		if r.reachLabels[l] == 0 && reachedInEarlierPart[l] == 0 {
 			r.inconclusive = append(r.inconclusive, "reachability witness not reached: "+l)
 		}
 	}
